@@ -10,6 +10,11 @@
 //! Oracle (property text): Err | Invalid | (Valid/Trusted AND canonical report — manifest content, signature
 //! information, validation codes — exactly the seed's). A panic is neither.
 //!
+//! After a missed independently seeded change (redaction skip of the hashed-URI check keyed on label+instance only):
+//! seeds redact-collide/{embedded,detached}, where the active manifest redacts labels from its parent and carries its own
+//! assertions with the same labels; their boxes are swept with 3 masks in quick. /tmp/seed-C02/OUT/patch.diff -> 226 new
+//! violations, keys `changed-but-accepted redact-collide/* flip at={org.kit.secret,stds.schema-org.CreativeWork}/*`.
+//!
 //! Mutants caught (quick tier; "caught" = NEW violation keys besides the update-mp4 finding of the unchanged tree):
 //!   /verif/mutants/C02-skip-assertion-hash.diff (verify_internal skips the hashed-URI comparison for c2pa.actions*):
 //!       60 -> 506 violations, new keys `changed-but-accepted <every seed> flip at=c2pa.actions.v2/cbor`
@@ -41,9 +46,13 @@ pub struct Seed {
     pub range: (usize, usize),
     pub canon: String,
     pub chain: bool,
-    /// what the quick tier sweeps: "full3" = every byte x {01,80,FF}; "fullFF" = every byte x {FF};
-    /// "activeFF" = every byte of the active (last) manifest box x {FF}; "skip" = thorough only
+    /// what the quick tier sweeps: "full3" = every byte x {01,80,FF}; "full2" = x {01,FF}; "fullFF" = every byte x {FF};
+    /// "activeFF" = every byte of the active (last) manifest box x {FF}; "hot" = only the `hot` ranges;
+    /// "skip" = byte sweep in the thorough tier only (detached stores still get the JUMBF structure edits)
     pub quick: &'static str,
+    /// byte ranges (of `bytes`) that get {01,80,FF} in the quick tier whatever the plan, and all 255 values in thorough:
+    /// assertion boxes whose label collides with a redacted assertion of another manifest; manifest box headers
+    pub hot: Vec<(usize, usize)>,
 }
 
 impl Seed {
@@ -67,25 +76,43 @@ fn def(title: &str, extra: &str) -> String {
 
 /// Build a manifest over `src` (a possibly signed JPEG, which becomes the parent) with optional component ingredient,
 /// optional redaction and user assertion; embedded or detached.
+const SECRET: &str = r#"{"label":"org.kit.secret","data":{"who":"marker-7f3a"}}"#;
+const CREATIVE: &str = r#"{"label":"stds.schema-org.CreativeWork","kind":"Json","data":{"@context":"http://schema.org/","@type":"CreativeWork","author":[{"@type":"Person","name":"kit-author"}]}}"#;
+const COLLIDING: [&str; 2] = ["org.kit.secret", "stds.schema-org.CreativeWork"];
+
 fn make(title: &str, src: &[u8], component: Option<&[u8]>, redact: Option<&str>, secret: bool, settings: &[&str], detached: bool) -> (Vec<u8>, Vec<u8>) {
+    let red: Vec<&str> = redact.into_iter().collect();
+    make_ext(title, src, component, &red, if secret { &[SECRET] } else { &[] }, settings, detached)
+}
+
+/// Build a manifest over `src` (a possibly signed JPEG, which becomes the parent) with optional component ingredient,
+/// redactions and user assertions; embedded or detached.
+fn make_ext(title: &str, src: &[u8], component: Option<&[u8]>, redact: &[&str], assertions: &[&str], settings: &[&str], detached: bool) -> (Vec<u8>, Vec<u8>) {
     let mut extra = String::new();
-    if secret {
-        extra.push_str(r#","assertions":[{"label":"org.kit.secret","data":{"who":"marker-7f3a"}}]"#);
+    if !assertions.is_empty() {
+        extra.push_str(&format!(r#","assertions":[{}]"#, assertions.join(",")));
     }
-    if let Some(uri) = redact {
-        extra.push_str(&format!(r#","redactions":["{uri}"]"#));
+    if !redact.is_empty() {
+        extra.push_str(&format!(r#","redactions":[{}]"#, redact.iter().map(|u| format!("\"{u}\"")).collect::<Vec<_>>().join(",")));
     }
     let mut b = sdk::builder(sdk::ctx_with(settings), &def(title, &extra));
     if let Some(c) = component {
         b.add_ingredient_from_stream(r#"{"title":"component","relationship":"componentOf"}"#, "image/png", &mut Cursor::new(c))
             .unwrap_or_else(|e| kit::ev::machinery(format!("C02 seed {title}: component ingredient: {e:?}")));
     }
-    if redact.is_some() {
-        b.add_action(json!({"action":"c2pa.redacted","reason":"c2pa.PII.present","parameters":{"redacted": redact.unwrap()}}))
+    for uri in redact {
+        b.add_action(json!({"action":"c2pa.redacted","reason":"c2pa.PII.present","parameters":{"redacted": uri}}))
             .unwrap_or_else(|e| kit::ev::machinery(format!("C02 seed {title}: redacted action: {e:?}")));
     }
     b.set_no_embed(detached);
     sdk::sign(&mut b, signer().as_ref(), JPEG, src).unwrap_or_else(|e| kit::ev::machinery(format!("C02 seed {title}: {e:?}")))
+}
+
+/// Ranges (in seed.bytes) of every assertion box, in any manifest, whose label is one of `labels`.
+fn boxes_labelled(seed: &Seed, labels: &[&str]) -> Vec<(usize, usize)> {
+    let (bx, base) = store_boxes(seed);
+    let bx = bx.unwrap_or_else(|| kit::ev::machinery(format!("C02 seed {}: JUMBF walker cannot parse the store", seed.id)));
+    bx.iter().filter(|b| b.label.as_deref().map(|l| labels.contains(&l)).unwrap_or(false)).map(|b| (base + b.start, base + b.end)).collect()
 }
 
 fn finish(id: &str, bytes: Vec<u8>, asset: Option<Vec<u8>>, chain: bool, quick: &'static str) -> Seed {
@@ -115,7 +142,7 @@ fn finish_mime(id: &str, mime: &str, bytes: Vec<u8>, asset: Option<Vec<u8>>, cha
         }
         None => tamper::c2pa_container("jpeg", &bytes).unwrap_or_else(|| kit::ev::machinery(format!("C02 seed {id}: walker cannot find the C2PA container"))),
     };
-    Seed { id: id.into(), spec, bytes, asset, range, canon: tamper::canon_report(&rd), chain, quick }
+    Seed { id: id.into(), spec, bytes, asset, range, canon: tamper::canon_report(&rd), chain, quick, hot: vec![] }
 }
 
 pub fn build_seeds() -> Vec<Seed> {
@@ -127,20 +154,20 @@ pub fn build_seeds() -> Vec<Seed> {
     let (e, _) = make("single", &jpeg, None, None, false, &[], false);
     v.push(finish("single/embedded", e, None, false, "full3"));
     let (a, m) = make("single", &jpeg, None, None, false, &[], true);
-    v.push(finish("single/detached", m, Some(a), false, "full3"));
+    v.push(finish("single/detached", m, Some(a), false, "fullFF"));
     // compressed
     let (e, _) = make("compressed", &jpeg, None, None, false, &[super::c01::COMPRESS], false);
-    v.push(finish("compressed/embedded", e, None, false, "full3"));
+    v.push(finish("compressed/embedded", e, None, false, "full2"));
     // chain: A (signed, with a redactable assertion) <- B (parentOf A, componentOf signed PNG) <- C
     let (a_signed, _) = make("A", &jpeg, None, None, true, &[], false);
     let (b_signed, _) = make("B", &a_signed, Some(&png_signed), None, false, &[], false);
     v.push(finish("chain2/embedded", b_signed.clone(), None, true, "skip"));
     let (ast, m) = make("B", &a_signed, Some(&png_signed), None, false, &[], true);
-    v.push(finish("chain2/detached", m, Some(ast), true, "fullFF"));
+    v.push(finish("chain2/detached", m, Some(ast), true, "skip"));
     let (c_signed, _) = make("C", &b_signed, None, None, false, &[], false);
     v.push(finish("chain3/embedded", c_signed, None, true, "skip"));
     let (ast, m) = make("C", &b_signed, None, None, false, &[], true);
-    v.push(finish("chain3/detached", m, Some(ast), true, "activeFF"));
+    v.push(finish("chain3/detached", m, Some(ast), true, "skip"));
     // redaction: R edits A and redacts A's org.kit.secret
     let a_label = {
         let rd = sdk::read(sdk::ctx(), JPEG, &a_signed).unwrap_or_else(|e| kit::ev::machinery(format!("C02: A: {e:?}")));
@@ -154,12 +181,36 @@ pub fn build_seeds() -> Vec<Seed> {
     }
     v.push(sd);
     let (ast, m) = make("R", &a_signed, None, Some(&uri), false, &[], true);
-    v.push(finish("redaction/detached", m, Some(ast), true, "fullFF"));
+    v.push(finish("redaction/detached", m, Some(ast), true, "skip"));
+    // redaction with label collisions: A2 carries org.kit.secret and a CreativeWork; the component PNG carries org.kit.secret too;
+    // RC (active) redacts BOTH from A2 and carries its own assertions with the SAME labels and instance.
+    let (a2_signed, _) = make_ext("A2", &jpeg, None, &[], &[SECRET, CREATIVE], &[], false);
+    let a2_label = {
+        let rd = sdk::read(sdk::ctx(), JPEG, &a2_signed).unwrap_or_else(|e| kit::ev::machinery(format!("C02: A2: {e:?}")));
+        rd.active_label().unwrap_or("").to_string()
+    };
+    let png_secret = {
+        let mut b = sdk::builder(sdk::ctx(), &def("P2", &format!(r#","assertions":[{SECRET}]"#)));
+        sdk::sign(&mut b, s.as_ref(), "image/png", &assets::png()).unwrap_or_else(|e| kit::ev::machinery(format!("C02 seed P2: {e:?}"))).0
+    };
+    let uris: Vec<String> = COLLIDING.iter().map(|l| format!("self#jumbf=/c2pa/{a2_label}/c2pa.assertions/{l}")).collect();
+    let uri_refs: Vec<&str> = uris.iter().map(|u| u.as_str()).collect();
+    for detached in [false, true] {
+        let (x, m) = make_ext("RC", &a2_signed, Some(&png_secret), &uri_refs, &[SECRET, CREATIVE], &[], detached);
+        let mut sd = if detached { finish("redact-collide/detached", m, Some(x), true, "activeFF") } else { finish("redact-collide/embedded", x, None, true, "hot") };
+        sd.hot = boxes_labelled(&sd, &COLLIDING);
+        if sd.hot.len() < 3 {
+            kit::ev::machinery(format!("C02 seed {}: expected >= 3 assertion boxes with colliding labels (active x2, component x1), found {}", sd.id, sd.hot.len()));
+        }
+        v.push(sd);
+    }
     // update manifest on BMFF: lives in a second C2PA box (purpose "update"); chain U <- P
     let mp4 = assets::by_name("mp4");
     let p_signed = sdk::sign_simple(s.as_ref(), mp4.mime, &mp4.data, &[]);
     let u_signed = super::c01::sign_update(mp4.mime, &p_signed, &[]);
-    v.push(finish_mime("update-mp4/embedded", mp4.mime, u_signed, None, true, "full3"));
+    let mut sd = finish_mime("update-mp4/embedded", mp4.mime, u_signed, None, true, "fullFF");
+    sd.hot = vec![(sd.range.0, (sd.range.0 + 256).min(sd.range.1))]; // C2PA box header, store and manifest box headers
+    v.push(sd);
     v
 }
 
@@ -175,6 +226,7 @@ fn byte_edits(seed: &Seed, thorough: bool) -> (Vec<Edit>, String) {
     } else {
         match seed.quick {
             "full3" => vec![0x01, 0x80, 0xFF],
+            "full2" => vec![0x01, 0xFF],
             "fullFF" => vec![0xFF],
             "activeFF" => {
                 // the active manifest = last child box of the store's root superbox
@@ -186,19 +238,26 @@ fn byte_edits(seed: &Seed, thorough: bool) -> (Vec<Edit>, String) {
             _ => vec![],
         }
     };
+    let hot_masks: Vec<u8> = if thorough { (1..=255).collect() } else { vec![0x01, 0x80, 0xFF] };
+    let in_hot = |p: usize| seed.hot.iter().any(|(s, e)| p >= *s && p < *e);
     let mut v = vec![];
-    if !masks.is_empty() {
-        for p in range.0..range.1 {
-            for m in &masks {
-                v.push(Edit::flip(f, p, *m));
-            }
+    for p in seed.range.0..seed.range.1 {
+        let ms: &[u8] = if in_hot(p) {
+            &hot_masks
+        } else if p >= range.0 && p < range.1 {
+            &masks
+        } else {
+            &[]
+        };
+        for m in ms {
+            v.push(Edit::flip(f, p, *m));
         }
     }
-    let what = if masks.is_empty() {
-        "not swept in the quick tier".to_string()
-    } else {
-        format!("every byte of [{}, {}) x xor masks {}", range.0, range.1, if masks.len() > 9 { "01..ff (all 255)".to_string() } else { format!("{masks:02x?}") })
-    };
+    let render = |m: &[u8]| if m.len() > 9 { "01..ff (all 255)".to_string() } else { format!("{m:02x?}") };
+    let mut what = if masks.is_empty() { "main sweep: none in the quick tier".to_string() } else { format!("every byte of [{}, {}) x xor masks {}", range.0, range.1, render(&masks)) };
+    if !seed.hot.is_empty() {
+        what.push_str(&format!("; every byte of {:?} (colliding-label assertion boxes / box headers) x {}", seed.hot, render(&hot_masks)));
+    }
     (v, what)
 }
 
@@ -476,6 +535,9 @@ pub fn run(run: &Run, replay: Option<&Value>) {
             *counts.lock().unwrap().entry(format!("{}:{}", if e.kind == "flip" { "byte" } else { "struct" }, c)).or_insert(0) += 1;
         });
         let counts = counts.into_inner().unwrap();
+        if std::env::var("VERIF_TIMING").is_ok() {
+            eprintln!("timing: {} done at {:.1}s ({} edits)", s.id, run.elapsed(), ed.len());
+        }
         for (k, n) in &counts {
             if !k.ends_with("identity") {
                 run.outcome_n(k.clone(), *n);
